@@ -20,6 +20,24 @@ pub struct ScnCheck {
     pub rule: &'static str,
 }
 
+impl ScnCheck {
+    fn exec_sc(&self, sc: &Scenario, kind: &str, keep_log: bool) -> Outcome {
+        let (viols, mut out) = if kind == "H" {
+            execute_h(sc, LossMode::Strict, 1, keep_log)
+        } else {
+            execute_n(sc, LossMode::Strict, 1, keep_log)
+        };
+        out.nontrivial = out.stats.requests > 1;
+        out.count(if kind == "N" { "ring_N_runs" } else { "ring_H_runs" }, 1);
+        let claims = self.claims;
+        match std::env::var("VERIF_CLAIM_SIG") {
+            Ok(sig) => out.absorb(viols, &|v| v.signature() == sig),
+            Err(_) => out.absorb(viols, &|v| claims(v)),
+        }
+        out
+    }
+}
+
 impl Check for ScnCheck {
     fn id(&self) -> &'static str {
         self.id
@@ -37,6 +55,10 @@ impl Check for ScnCheck {
             data: json!({"scenario": sc.to_json()}),
         }
     }
+    fn run_fast(&self, run_seed: u64, _index: u64, tier: Tier) -> Option<Outcome> {
+        let (sc, ring) = (self.gen)(run_seed, tier);
+        Some(self.exec_sc(&sc, ring, false))
+    }
     fn execute(&self, case: &Case) -> Outcome {
         let sc = match Scenario::from_json(&case.data["scenario"]) {
             Some(s) => s,
@@ -45,20 +67,7 @@ impl Check for ScnCheck {
                 std::process::exit(2);
             }
         };
-        let keep_log = case.data.get("log").is_some();
-        let (viols, mut out) = if case.kind == "H" {
-            execute_h(&sc, LossMode::Strict, 1, keep_log)
-        } else {
-            execute_n(&sc, LossMode::Strict, 1, keep_log)
-        };
-        out.nontrivial = out.stats.requests > 1;
-        out.count(if case.kind == "N" { "ring_N_runs" } else { "ring_H_runs" }, 1);
-        let claims = self.claims;
-        match std::env::var("VERIF_CLAIM_SIG") {
-            Ok(sig) => out.absorb(viols, &|v| v.signature() == sig),
-            Err(_) => out.absorb(viols, &|v| claims(v)),
-        }
-        out
+        self.exec_sc(&sc, if case.kind == "H" { "H" } else { "N" }, case.data.get("log").is_some())
     }
     fn rule(&self) -> String {
         self.rule.to_string()
